@@ -431,6 +431,12 @@ def rule_r2(prog, res):
     # customize registers the variant
     cc = cm.methods['customize']
     ok = any(call_name(c) == '_process_variants' for c in calls_in(cc.node))
+    if not ok:
+        # the registration may be written out in customize() itself
+        ok = any(isinstance(a_, ast.Assign) and any(
+            isinstance(t, ast.Subscript) and unparse(t.value).endswith(
+                'Attributes._variants') for t in a_.targets)
+            for a_ in walk_no_defs(cc.node))
     res.ob('R2', cc.where, 'customize registers the derivative through '
            '_process_variants', 'ok' if ok else 'VIOLATED')
     if not ok:
